@@ -440,7 +440,8 @@ class DataSim(object):
                 self.stats["fired:fail_request"] += 1
         self.states.add(self.cache_signature())
         record = {"step": step, "req": req, "index": index, "status": status, "arrays": arrays, "ref": ref,
-                  "fired": fired, "ds": op.get("ds", 0) % len(self.datasets)}
+                  "fired": fired, "ds": op.get("ds", 0) % len(self.datasets), "dig": live["dig"],
+                  "copies": [np.array(a, copy=True) for a in arrays] if self.record_arrays else None}
         if not self.record_arrays:
             pass
         self.records.append(record)
